@@ -630,6 +630,8 @@ def signature(kind: dict, ident: str) -> str:
         return f"draw_screen:3-cviews-of-one-widget-gone:{v}"
     if v in ("cviews-mismatch", "deletes-mismatch", "disguise-unchanged"):
         return f"draw_screen:{ctx}:bookkeeping:{v}"
+    if ctx in ("start", "stop", "clear"):
+        return f"{ctx}:{v}"
     return f"{api}:{ctx}:{v}"
 
 
@@ -687,9 +689,23 @@ def main(rep: Report, replay: dict | None) -> None:
         return
 
     quick = rep.tier == "quick"
-    t0 = time.time()
-    run_models(rep)
-    rep.extra["t_models"] = round(time.time() - t0, 1)
+    # the design-level models do not depend on the code: TLC checks them in the background while
+    # the real histories are produced
+    import threading
+
+    mc_rep = Report(rep.property_id, rep.tier, rep.seed)
+    mc_err: list[BaseException] = []
+
+    def _mc():
+        t = time.time()
+        try:
+            run_models(mc_rep)
+        except BaseException as e:  # re-raised in the main thread
+            mc_err.append(e)
+        mc_rep.extra["t_models"] = round(time.time() - t, 1)
+
+    th = threading.Thread(target=_mc, daemon=True)
+    th.start()
 
     items: list[dict] = []
     t0 = time.time()
@@ -703,7 +719,7 @@ def main(rep: Report, replay: dict | None) -> None:
 
     t0 = time.time()
     rng = random.Random(rep.seed * 9176 + 18)
-    n = 60 if quick else 1500
+    n = 150 if quick else 3000
     for i in range(n):
         ident = ["kitty", "konsole", "kitty", "konsole", "other"][i % 5]
         scn = random_script(rng, ident, rng.randint(12, 40), leaf=(i % 4 == 0), bad=(i % 3 == 0))
@@ -715,6 +731,13 @@ def main(rep: Report, replay: dict | None) -> None:
     t0 = time.time()
     judge(rep, items, "c18")
     rep.extra["t_judge"] = round(time.time() - t0, 1)
+    th.join()
+    if mc_err:
+        raise mc_err[0]
+    rep.states += mc_rep.states
+    rep.transitions += mc_rep.transitions
+    rep.violations += mc_rep.violations
+    rep.extra.update(mc_rep.extra)
     rep.extra["histories"] = len(items)
     for it in items[:3]:
         rep.sample({"source": it["scn"].get("source"), "ident": it["scn"]["ident"],
